@@ -3,8 +3,8 @@
 
    The oracle keeps its own book-keeping, derived from the history alone (which ids `allocate`
    returned and which were freed when, what was stored under them): it never calls the model.
-   The API contract (free / set_counter_value only on live ids, clock and cool-down within
-   i64 milliseconds, u64 values) is the boolean [contract_step]; judging stops at the first
+   The API contract (free only on live ids, value writes only on live ids or on freed ids that were
+   not handed out again, clock and cool-down within i64 milliseconds, u64 values) is the boolean [contract_step]; judging stops at the first
    operation that breaks it. *)
 Require Import V.Base.MachineInt.
 Require Import V.Generated.GenConsts.
@@ -48,7 +48,9 @@ Definition contract_step (g : cfg) (o : op) (sp : spec) : bool :=
   match o with
   | Alloc t ks _ => in_i32 t && (match ks with KFunc k => zlen k <=? MAXKEY | _ => true end)
   | Free id => memb id (sp_live sp)
-  | SetVal id v => memb id (sp_live sp) && in_u64 v
+  (* a value write is legal on a live counter and - the reason the cool-down exists - as a late write of
+     the former owner on a freed id that has not been handed out again *)
+  | SetVal id v => (memb id (sp_live sp) || memb id (sp_freed sp)) && in_u64 v
   | SetClock t => (0 <=? t) && (t + g_timeout g <? two63)
   | Dump => true
   end.
